@@ -417,3 +417,327 @@ Qed.
 
 Lemma subtree_self w c : In c (subtree w c).
 Proof. unfold subtree. left. reflexivity. Qed.
+
+(* ---------- small Forest consequences ---------- *)
+
+Lemma uuid_inj w known a b : Forest w known -> has w a = true -> has w b = true ->
+  nuuid (getn w a) = nuuid (getn w b) -> a = b.
+Proof.
+  intros Hf Ha Hb. apply (f_uuid _ _ Hf); apply (f_known _ _ Hf); assumption.
+Qed.
+
+Lemma rank0_KIR k : rank k = 0%nat -> k = KIR.
+Proof. destruct k; cbn [rank]; intro H; try discriminate; reflexivity. Qed.
+
+Lemma ir_not_below w (H2 : TwoEnded w) (HK : KindOK w) ir c r :
+  kindof w ir = KIR -> rank (kindof w c) = S r -> ~ In ir (subtree w c).
+Proof.
+  intros Hir Hrk Hin. apply (subtree_iff w H2) in Hin. destruct Hin as [k [_ Hu]].
+  apply (up_rank w HK) in Hu. rewrite Hir in Hu. cbn [rank] in Hu. lia.
+Qed.
+
+Lemma ir_of_child w (HK : KindOK w) p c : par w c = Some p -> kindof w p <> KIR -> ir_of w c = ir_of w p.
+Proof.
+  intros Hpc Hp. destruct (HK _ _ Hpc) as [_ [_ Hpk]]. apply parent_kind_rank in Hpk.
+  rewrite !ir_of_up. rewrite Hpk. destruct (rank (kindof w p)) as [|r] eqn:Er.
+  - exfalso. apply Hp. apply rank0_KIR. exact Er.
+  - rewrite up_S. rewrite Hpc. reflexivity.
+Qed.
+
+Lemma below_ir w (H2 : TwoEnded w) (HK : KindOK w) p c ir n :
+  par w c = Some p -> kindof w p <> KIR -> kindof w ir = KIR ->
+  In n (subtree w ir) -> In n (subtree w c) -> ir_of w p = Some ir.
+Proof.
+  intros Hpc Hp Hir Hn1 Hn2. destruct (HK _ _ Hpc) as [_ [_ Hpk]]. pose proof (parent_kind_rank _ _ Hpk) as Hrk.
+  assert (kindof w c <> KIR) as Hck. { intro E. rewrite E in Hrk. cbn [rank] in Hrk. discriminate. }
+  rewrite <- (ir_of_child w HK p c Hpc Hp). rewrite <- (ir_of_below w H2 HK c n Hn2 Hck).
+  apply (reach_iff w H2 HK ir n Hir) in Hn1. destruct Hn1 as [E|E]; [|exact E].
+  subst n. exfalso. exact (ir_not_below w H2 HK ir c _ Hir Hrk Hn2).
+Qed.
+
+(* ---------- the abstract detach step ---------- *)
+
+Definition del_uuids (w : world) (c : id) (d : list (Z * id)) : list (Z * id) :=
+  fold_left (fun d u => dict_del Z.eqb u d) (map (fun y => nuuid (getn w y)) (subtree w c)) d.
+
+Definition Detached (w : world) (p c : id) (w' : world) : Prop :=
+  Reparent w c None w' /\
+  (forall x, kids w' x = upd (kids w) p (remove_id c (kids w p)) x) /\
+  (forall x, cache w' x = match ir_of w p with
+                          | Some ir => upd (cache w) ir (del_uuids w c (cache w ir)) x
+                          | None => cache w x
+                          end).
+
+Lemma detach_forest w known p c w' :
+  Forest w known -> par w c = Some p -> Reparent w c None w' ->
+  (forall x, kids w' x = upd (kids w) p (remove_id c (kids w p)) x) -> Forest w' known.
+Proof.
+  intros Hf Hpc Hr Hk. destruct (f_kind _ _ Hf _ _ Hpc) as [Hhc [Hhp Hpk]].
+  constructor.
+  - intro n. rewrite (rp_has _ _ _ _ n Hr Hhc). apply (f_known _ _ Hf).
+  - intros q x. rewrite Hk. destruct (Z.eq_dec q p) as [E|E].
+    + subst q. rewrite upd_same. rewrite remove_id_In. rewrite (f_two_ended _ _ Hf).
+      destruct (Z.eq_dec x c) as [E2|E2].
+      * subst x. rewrite (rp_par_same _ _ _ _ Hr). split; [intros [_ H]; congruence|intro H; discriminate H].
+      * rewrite (rp_par_other _ _ _ _ _ Hr E2). tauto.
+    + rewrite (upd_other _ _ _ _ E). rewrite (f_two_ended _ _ Hf). destruct (Z.eq_dec x c) as [E2|E2].
+      * subst x. rewrite (rp_par_same _ _ _ _ Hr). rewrite Hpc. split; intro H; [congruence|discriminate H].
+      * rewrite (rp_par_other _ _ _ _ _ Hr E2). tauto.
+  - intro q. rewrite Hk. destruct (Z.eq_dec q p) as [E|E].
+    + subst q. rewrite upd_same. apply NoDup_remove_id. apply (f_nodup _ _ Hf).
+    + rewrite (upd_other _ _ _ _ E). apply (f_nodup _ _ Hf).
+  - intros q x Hx. destruct (Z.eq_dec x c) as [E2|E2].
+    + subst x. rewrite (rp_par_same _ _ _ _ Hr) in Hx. discriminate Hx.
+    + rewrite (rp_par_other _ _ _ _ _ Hr E2) in Hx. rewrite !(rp_has _ _ _ _ _ Hr Hhc).
+      rewrite !(rp_kind _ _ _ _ _ Hr). apply (f_kind _ _ Hf). exact Hx.
+  - intros a b Ha Hb. rewrite !(rp_uuid _ _ _ _ _ Hr). apply (f_uuid _ _ Hf); assumption.
+Qed.
+
+Lemma detach_reach w known p c w' ir :
+  Forest w known -> par w c = Some p -> Reparent w c None w' ->
+  (forall x, kids w' x = upd (kids w) p (remove_id c (kids w p)) x) -> kindof w ir = KIR ->
+  forall n, In n (subtree w' ir) <-> In n (subtree w ir) /\ ~ In n (subtree w c).
+Proof.
+  intros Hf Hpc Hr Hk Hkind n.
+  pose proof (detach_forest _ _ _ _ _ Hf Hpc Hr Hk) as Hf'.
+  pose proof (forest_two_ended _ _ Hf) as H2. pose proof (forest_kind_ok _ _ Hf) as HK.
+  destruct (f_kind _ _ Hf _ _ Hpc) as [Hhc [Hhp Hpkind]].
+  pose proof (parent_kind_rank _ _ Hpkind) as Hrk.
+  assert (kindof w' ir = KIR) as Hkind' by (rewrite (rp_kind _ _ _ _ _ Hr); exact Hkind).
+  rewrite (reach_iff w' (forest_two_ended _ _ Hf') (forest_kind_ok _ _ Hf') ir n Hkind').
+  rewrite (reach_iff w H2 HK ir n Hkind).
+  destruct (in_dec Z.eq_dec n (subtree w c)) as [Hin|Hin].
+  - rewrite (ir_of_rp_in w H2 HK c None w' n _ Hr Hin Hrk). cbn [bind_o].
+    split; [|tauto]. intros [E|E]; [|discriminate E]. subst n. exfalso.
+    exact (ir_not_below w H2 HK ir c _ Hkind Hrk Hin).
+  - rewrite (ir_of_rp_out w H2 c None w' n Hr Hin). tauto.
+Qed.
+
+Lemma detach_cache w known p c w' :
+  Forest w known -> CacheInv w -> par w c = Some p -> kindof w p <> KIR ->
+  Detached w p c w' -> CacheInv w'.
+Proof.
+  intros Hf Hc Hpc Hpk [Hr [Hk Hca]].
+  pose proof (forest_two_ended _ _ Hf) as H2. pose proof (forest_kind_ok _ _ Hf) as HK.
+  destruct (f_kind _ _ Hf _ _ Hpc) as [Hhc [Hhp Hpkind]].
+  intros ir Hhas Hkind. rewrite (rp_has _ _ _ _ _ Hr Hhc) in Hhas. rewrite (rp_kind _ _ _ _ _ Hr) in Hkind.
+  destruct (Hc ir Hhas Hkind) as [Hnd Hget]. unfold reach in *.
+  pose proof (detach_reach _ _ _ _ _ ir Hf Hpc Hr Hk Hkind) as HA.
+  assert (HC : forall n, In n (subtree w ir) -> In n (subtree w c) -> ir_of w p = Some ir).
+  { intros n. apply (below_ir w H2 HK p c ir n Hpc Hpk Hkind). }
+  assert (HS : forall n, In n (subtree w ir) -> has w n = true).
+  { intros n. apply (subtree_has _ _ _ _ Hf Hhas). }
+  assert (HSc : forall n, In n (subtree w c) -> has w n = true).
+  { intros n. apply (subtree_has _ _ _ _ Hf Hhc). }
+  rewrite Hca. destruct (ir_of w p) as [ir0|] eqn:Eir.
+  - destruct (Z.eq_dec ir ir0) as [E|E].
+    + subst ir0. rewrite upd_same. unfold del_uuids. split; [apply NoDup_keys_fold_del; exact Hnd|].
+      intros u n. rewrite dict_get_fold_del. rewrite (rp_uuid _ _ _ _ _ Hr). rewrite HA.
+      destruct (mem u (map (fun y => nuuid (getn w y)) (subtree w c))) eqn:Em.
+      * split; [intro H; discriminate H|]. intros [[H1 H2'] H3]. exfalso. apply H2'.
+        apply mem_In in Em. apply in_map_iff in Em. destruct Em as [m [Hm1 Hm2]].
+        assert (m = n) as Hmn. { apply (uuid_inj _ _ _ _ Hf); [apply HSc; exact Hm2|apply HS; exact H1|congruence]. }
+        subst m. exact Hm2.
+      * rewrite Hget. split; [|tauto]. intros [H1 H3]. split; [|exact H3]. split; [exact H1|].
+        intro Hin. apply mem_false in Em. apply Em. apply in_map_iff. exists n. split; [exact H3|exact Hin].
+    + rewrite (upd_other _ _ _ _ E). split; [exact Hnd|]. intros u n. rewrite (rp_uuid _ _ _ _ _ Hr). rewrite HA.
+      rewrite Hget. split; [|tauto]. intros [H1 H3]. split; [|exact H3]. split; [exact H1|].
+      intro Hin. apply E. specialize (HC n H1 Hin). congruence.
+  - split; [exact Hnd|]. intros u n. rewrite (rp_uuid _ _ _ _ _ Hr). rewrite HA.
+    rewrite Hget. split; [|tauto]. intros [H1 H3]. split; [|exact H3]. split; [exact H1|].
+    intro Hin. specialize (HC n H1 Hin). discriminate HC.
+Qed.
+
+(* the KeyError flag of the removal: every uuid below c is in the table of p's IR *)
+Lemma detach_flag w known p c ir :
+  Forest w known -> CacheInv w -> par w c = Some p -> kindof w p <> KIR -> ir_of w p = Some ir ->
+  forallb (fun u => dict_has Z.eqb u (cache w ir)) (map (fun y => nuuid (getn w y)) (subtree w c)) = true.
+Proof.
+  intros Hf Hc Hpc Hpk Hir.
+  pose proof (forest_two_ended _ _ Hf) as H2. pose proof (forest_kind_ok _ _ Hf) as HK.
+  destruct (f_kind _ _ Hf _ _ Hpc) as [Hhc [Hhp Hpkind]]. pose proof (parent_kind_rank _ _ Hpkind) as Hrk.
+  assert (kindof w c <> KIR) as Hck. { intro E. rewrite E in Hrk. cbn [rank] in Hrk. discriminate. }
+  (* ir is an existing IR *)
+  assert (has w ir = true /\ kindof w ir = KIR) as [Hhir Hkir].
+  { rewrite ir_of_up in Hir. destruct (rank (kindof w p)) as [|r] eqn:Er; [discriminate Hir|].
+    pose proof (up_rank w HK _ _ _ Hir) as Hr. split.
+    - rewrite up_snoc in Hir. destruct (up w p r) as [m|]; cbn [bind_o] in Hir; [|discriminate Hir].
+      apply (HK _ _ Hir).
+    - apply rank0_KIR. lia. }
+  destruct (Hc ir Hhir Hkir) as [_ Hget]. unfold reach in Hget.
+  apply forallb_forall. intros u Hu. apply in_map_iff in Hu. destruct Hu as [n [Hn1 Hn2]].
+  apply (dict_has_get u _ n). apply Hget. split; [|exact Hn1].
+  apply (reach_iff w H2 HK ir n Hkir). right.
+  rewrite (ir_of_below w H2 HK c n Hn2 Hck). rewrite (ir_of_child w HK p c Hpc Hpk). exact Hir.
+Qed.
+
+(* ---------- the abstract attach step ---------- *)
+
+Definition add_uuids (w : world) (c : id) (d : list (Z * id)) : list (Z * id) :=
+  fold_left (fun d y => dict_set Z.eqb (nuuid (getn w y)) y d) (subtree w c) d.
+
+Definition Attached (w : world) (p c : id) (w' : world) : Prop :=
+  Reparent w c (Some p) w' /\
+  (forall x, kids w' x = upd (kids w) p (kids w p ++ [c]) x) /\
+  (forall x, cache w' x = match ir_of w p with
+                          | Some ir => upd (cache w) ir (add_uuids w c (cache w ir)) x
+                          | None => cache w x
+                          end).
+
+Lemma attach_forest w known p c w' :
+  Forest w known -> par w c = None -> has w c = true -> has w p = true ->
+  parent_kind (kindof w c) = Some (kindof w p) ->
+  Reparent w c (Some p) w' ->
+  (forall x, kids w' x = upd (kids w) p (kids w p ++ [c]) x) -> Forest w' known.
+Proof.
+  intros Hf Hpc Hhc Hhp Hpk Hr Hk.
+  assert (Hnot : forall q, ~ In c (kids w q)).
+  { intros q H. apply (f_two_ended _ _ Hf) in H. congruence. }
+  constructor.
+  - intro n. rewrite (rp_has _ _ _ _ n Hr Hhc). apply (f_known _ _ Hf).
+  - intros q x. rewrite Hk. destruct (Z.eq_dec q p) as [E|E].
+    + subst q. rewrite upd_same. rewrite in_app_iff. cbn [In]. destruct (Z.eq_dec x c) as [E2|E2].
+      * subst x. rewrite (rp_par_same _ _ _ _ Hr). split; [reflexivity|]. intros _. right. left. reflexivity.
+      * rewrite (rp_par_other _ _ _ _ _ Hr E2). rewrite (f_two_ended _ _ Hf). split; [|tauto].
+        intros [H|[H|[]]]; [exact H|congruence].
+    + rewrite (upd_other _ _ _ _ E). destruct (Z.eq_dec x c) as [E2|E2].
+      * subst x. rewrite (rp_par_same _ _ _ _ Hr). split; [intro H; exfalso; exact (Hnot q H)|intro H; congruence].
+      * rewrite (rp_par_other _ _ _ _ _ Hr E2). apply (f_two_ended _ _ Hf).
+  - intro q. rewrite Hk. destruct (Z.eq_dec q p) as [E|E].
+    + subst q. rewrite upd_same. apply NoDup_snoc; [apply (f_nodup _ _ Hf)|apply Hnot].
+    + rewrite (upd_other _ _ _ _ E). apply (f_nodup _ _ Hf).
+  - intros q x Hx. rewrite !(rp_has _ _ _ _ _ Hr Hhc). rewrite !(rp_kind _ _ _ _ _ Hr).
+    destruct (Z.eq_dec x c) as [E2|E2].
+    + subst x. rewrite (rp_par_same _ _ _ _ Hr) in Hx. injection Hx as Hx. subst q. tauto.
+    + rewrite (rp_par_other _ _ _ _ _ Hr E2) in Hx. apply (f_kind _ _ Hf). exact Hx.
+  - intros a b Ha Hb. rewrite !(rp_uuid _ _ _ _ _ Hr). apply (f_uuid _ _ Hf); assumption.
+Qed.
+
+Lemma ir_of_orphan w c r : par w c = None -> rank (kindof w c) = S r -> ir_of w c = None.
+Proof. intros Hp Hr. rewrite ir_of_up. rewrite Hr. rewrite up_S. rewrite Hp. reflexivity. Qed.
+
+(* the IR of everything below c after attaching c to p *)
+Lemma ir_of_attach_in w known p c w' n :
+  Forest w known -> parent_kind (kindof w c) = Some (kindof w p) -> kindof w p <> KIR ->
+  Reparent w c (Some p) w' -> In n (subtree w c) -> ir_of w' n = ir_of w p.
+Proof.
+  intros Hf Hpk Hp Hr Hin.
+  pose proof (forest_two_ended _ _ Hf) as H2. pose proof (forest_kind_ok _ _ Hf) as HK.
+  pose proof (parent_kind_rank _ _ Hpk) as Hrk.
+  rewrite (ir_of_rp_in w H2 HK c (Some p) w' n _ Hr Hin Hrk). cbn [bind_o].
+  rewrite ir_of_up. destruct (rank (kindof w p)) as [|r] eqn:Er.
+  - exfalso. apply Hp. apply rank0_KIR. exact Er.
+  - apply (up_frame w w' c).
+    + intros x Hx. apply (rp_par_other _ _ _ _ _ Hr Hx).
+    + intros j Hj Hu. apply (up_rank w HK) in Hu. lia.
+Qed.
+
+Lemma attach_reach w known p c w' ir :
+  Forest w known -> par w c = None -> has w c = true -> has w p = true ->
+  parent_kind (kindof w c) = Some (kindof w p) -> kindof w p <> KIR ->
+  Reparent w c (Some p) w' ->
+  (forall x, kids w' x = upd (kids w) p (kids w p ++ [c]) x) -> kindof w ir = KIR ->
+  forall n, In n (subtree w' ir) <-> In n (subtree w ir) \/ (In n (subtree w c) /\ ir_of w p = Some ir).
+Proof.
+  intros Hf Hpc Hhc Hhp Hpk Hp Hr Hk Hkind n.
+  pose proof (attach_forest _ _ _ _ _ Hf Hpc Hhc Hhp Hpk Hr Hk) as Hf'.
+  pose proof (forest_two_ended _ _ Hf) as H2. pose proof (forest_kind_ok _ _ Hf) as HK.
+  pose proof (parent_kind_rank _ _ Hpk) as Hrk.
+  assert (kindof w c <> KIR) as Hck. { intro E. rewrite E in Hrk. cbn [rank] in Hrk. discriminate. }
+  assert (kindof w' ir = KIR) as Hkind' by (rewrite (rp_kind _ _ _ _ _ Hr); exact Hkind).
+  rewrite (reach_iff w' (forest_two_ended _ _ Hf') (forest_kind_ok _ _ Hf') ir n Hkind').
+  rewrite (reach_iff w H2 HK ir n Hkind).
+  destruct (in_dec Z.eq_dec n (subtree w c)) as [Hin|Hin].
+  - rewrite (ir_of_attach_in _ _ _ _ _ _ Hf Hpk Hp Hr Hin).
+    rewrite (ir_of_below w H2 HK c n Hin Hck). rewrite (ir_of_orphan w c _ Hpc Hrk).
+    assert (n <> ir) as Hne. { intro E. subst n. exact (ir_not_below w H2 HK ir c _ Hkind Hrk Hin). }
+    split; [intros [E|E]; [contradiction|right; tauto]|].
+    intros [[E|E]|[_ E]]; [contradiction|discriminate E|right; exact E].
+  - rewrite (ir_of_rp_out w H2 c (Some p) w' n Hr Hin). tauto.
+Qed.
+
+Lemma attach_cache w known p c w' :
+  Forest w known -> CacheInv w -> par w c = None -> has w c = true -> has w p = true ->
+  parent_kind (kindof w c) = Some (kindof w p) -> kindof w p <> KIR ->
+  Attached w p c w' -> CacheInv w'.
+Proof.
+  intros Hf Hc Hpc Hhc Hhp Hpk Hp [Hr [Hk Hca]].
+  intros ir Hhas Hkind. rewrite (rp_has _ _ _ _ _ Hr Hhc) in Hhas. rewrite (rp_kind _ _ _ _ _ Hr) in Hkind.
+  destruct (Hc ir Hhas Hkind) as [Hnd Hget]. unfold reach in *.
+  pose proof (attach_reach _ _ _ _ _ ir Hf Hpc Hhc Hhp Hpk Hp Hr Hk Hkind) as HA.
+  assert (HS : forall n, In n (subtree w ir) -> has w n = true).
+  { intros n. apply (subtree_has _ _ _ _ Hf Hhas). }
+  assert (HSc : forall n, In n (subtree w c) -> has w n = true).
+  { intros n. apply (subtree_has _ _ _ _ Hf Hhc). }
+  rewrite Hca. destruct (ir_of w p) as [ir0|] eqn:Eir.
+  - destruct (Z.eq_dec ir ir0) as [E|E].
+    + subst ir0. rewrite upd_same. unfold add_uuids.
+      split; [apply (NoDup_keys_fold_set (fun y => nuuid (getn w y))); exact Hnd|].
+      intros u n. rewrite (rp_uuid _ _ _ _ _ Hr). rewrite HA.
+      rewrite (dict_get_fold_set (fun y => nuuid (getn w y))).
+      2:{ intros a b Ha Hb. apply (uuid_inj _ _ _ _ Hf); [apply HSc; exact Ha|apply HSc; exact Hb]. }
+      rewrite Hget. split.
+      * intros [[H1 H3]|[H1 [H3 H4]]]; [split; [right; split; [exact H1|reflexivity]|exact H3]|].
+        split; [left; exact H3|exact H4].
+      * intros [[H1|[H1 _]] H3]; [|left; tauto].
+        destruct (in_dec Z.eq_dec n (subtree w c)) as [Hin|Hin]; [left; tauto|].
+        right. split; [|tauto]. intro Hu. apply in_map_iff in Hu. destruct Hu as [m [Hm1 Hm2]].
+        assert (m = n) as Hmn. { apply (uuid_inj _ _ _ _ Hf); [apply HSc; exact Hm2|apply HS; exact H1|congruence]. }
+        subst m. exact (Hin Hm2).
+    + rewrite (upd_other _ _ _ _ E). split; [exact Hnd|]. intros u n. rewrite (rp_uuid _ _ _ _ _ Hr). rewrite HA.
+      rewrite Hget. split; [tauto|]. intros [[H1|[_ H1]] H3]; [tauto|]. exfalso. apply E. congruence.
+  - split; [exact Hnd|]. intros u n. rewrite (rp_uuid _ _ _ _ _ Hr). rewrite HA.
+    rewrite Hget. split; [tauto|]. intros [[H1|[_ H1]] H3]; [tauto|discriminate H1].
+Qed.
+
+(* ---------- worlds that agree on the ownership skeleton ---------- *)
+
+Definition SameSkel (w w' : world) : Prop :=
+  (forall x, kids w' x = kids w x) /\ (forall x, cache w' x = cache w x) /\
+  (forall x, has w' x = has w x /\ nk (getn w' x) = nk (getn w x) /\
+             nuuid (getn w' x) = nuuid (getn w x) /\ npar (getn w' x) = npar (getn w x)).
+
+Lemma skel_refl w : SameSkel w w.
+Proof. repeat split; reflexivity. Qed.
+
+Lemma skel_trans w1 w2 w3 : SameSkel w1 w2 -> SameSkel w2 w3 -> SameSkel w1 w3.
+Proof.
+  intros [Hk1 [Hc1 Hn1]] [Hk2 [Hc2 Hn2]]. split; [|split].
+  - intro x. rewrite Hk2. apply Hk1.
+  - intro x. rewrite Hc2. apply Hc1.
+  - intro x. destruct (Hn1 x) as [A1 [B1 [C1 D1]]]. destruct (Hn2 x) as [A2 [B2 [C2 D2]]].
+    repeat split; congruence.
+Qed.
+
+Lemma skel_nodes w w' : (forall x, nodes w' x = nodes w x) -> kids w' = kids w -> cache w' = cache w -> SameSkel w w'.
+Proof.
+  intros Hn Hk Hc. split; [|split].
+  - intro x. rewrite Hk. reflexivity.
+  - intro x. rewrite Hc. reflexivity.
+  - intro x. rewrite (has_ext _ _ _ (Hn x)). rewrite (getn_ext _ _ _ (Hn x)). repeat split; reflexivity.
+Qed.
+
+Lemma skel_forest w w' known : SameSkel w w' -> Forest w known -> Forest w' known.
+Proof.
+  intros [Hk [Hc Hn]] Hf.
+  assert (Hpar : forall x, par w' x = par w x) by (intro x; unfold par; apply (Hn x)).
+  assert (Hkind : forall x, kindof w' x = kindof w x) by (intro x; unfold kindof; apply (Hn x)).
+  assert (Hhas : forall x, has w' x = has w x) by (intro x; apply (Hn x)).
+  constructor.
+  - intro n. rewrite Hhas. apply (f_known _ _ Hf).
+  - intros p c. rewrite Hk. rewrite Hpar. apply (f_two_ended _ _ Hf).
+  - intro p. rewrite Hk. apply (f_nodup _ _ Hf).
+  - intros p c. rewrite Hpar. rewrite !Hhas. rewrite !Hkind. apply (f_kind _ _ Hf).
+  - intros a b Ha Hb. destruct (Hn a) as [_ [_ [Ua _]]]. destruct (Hn b) as [_ [_ [Ub _]]].
+    rewrite Ua. rewrite Ub. apply (f_uuid _ _ Hf); assumption.
+Qed.
+
+Lemma skel_cache w w' : SameSkel w w' -> CacheInv w -> CacheInv w'.
+Proof.
+  intros [Hk [Hc Hn]] Hci ir Hhas Hkind.
+  assert (Hkindeq : kindof w' ir = kindof w ir) by (unfold kindof; apply (Hn ir)).
+  rewrite Hkindeq in Hkind. destruct (Hn ir) as [Hh _]. rewrite Hh in Hhas.
+  destruct (Hci ir Hhas Hkind) as [Hnd Hget]. rewrite Hc. split; [exact Hnd|].
+  intros u n. unfold reach. rewrite (subtree_ext w w' ir Hk). destruct (Hn n) as [_ [_ [Un _]]]. rewrite Un.
+  apply Hget.
+Qed.
